@@ -315,13 +315,14 @@ class Writer(BaseValidator):
         Same as ``row`` but with items possibly padded with trailing blanks in order to fix fixed length.
         """
         assert row is not None
-        assert len(row) == len(self.cid.field_formats)
         result = []
         for field_index, field_value in enumerate(row):
-            field_value_length = len(field_value)
-            _, fixed_field_length = self._field_names_and_lengths[field_index]
-            if field_value_length < fixed_field_length:
-                field_value += " " * (fixed_field_length - field_value_length)
+            # Items that cannot be padded (surplus items, anything but text) are left to the validation to reject.
+            if (field_index < len(self._field_names_and_lengths)) and isinstance(field_value, str):
+                field_value_length = len(field_value)
+                _, fixed_field_length = self._field_names_and_lengths[field_index]
+                if field_value_length < fixed_field_length:
+                    field_value += " " * (fixed_field_length - field_value_length)
             result.append(field_value)
         return result
 
@@ -329,12 +330,14 @@ class Writer(BaseValidator):
         assert row_to_write is not None
         assert self._delegated_writer is not None
 
-        if self.location.line >= self._header:
-            self.validate_row(row_to_write)
+        # Validate the row the way it is going to be written, so the checks see the same (padded) values a reader
+        # of the result will see.
         if self.cid.data_format.format == data.FORMAT_FIXED:
             actual_row_to_write = self._padded_fixed_row(row_to_write)
         else:
             actual_row_to_write = row_to_write
+        if self.location.line >= self._header:
+            self.validate_row(actual_row_to_write)
         self._delegated_writer.write_row(actual_row_to_write)
 
     def write_rows(self, rows_to_write):
